@@ -22,7 +22,7 @@ HANDLES = ['ch', 'm1', 'm2', 'dB']
 CTX = []
 ABS = {'a': 'm1', 'b': 'm2', 'd': 'dB'}
 MC_ACTIONS = ['CommitState', 'CommitDescrUpdate', 'CommitDelete', 'CommitCreate', 'Restart', 'Deliver', 'BeginLoad',
-              'Snapshot', 'EndLoad']
+              'Snapshot', 'ArriveDuringReplay', 'EndLoad']
 
 
 def _is_getmdib(wire):
@@ -194,17 +194,19 @@ class FaultSession:
             act = rec['act']
             if act == 'BeginLoad':
                 j = i + 1
-                pre, post, seen_snap = [], [], False
+                pre, post, late, seen_snap = [], [], [], False
                 while j < len(beh) and beh[j]['act'] != 'EndLoad':
                     if beh[j]['act'] == 'Snapshot':
                         seen_snap = True
+                    elif beh[j]['act'] == 'ArriveDuringReplay':
+                        late.append(beh[j])
                     elif beh[j]['act'] != 'BeginLoad':
                         (post if seen_snap else pre).append(beh[j])
                     j += 1
-                self.trace.append(self._load(pre, post))
+                self.trace.append(self._load(pre, post, late))
                 i = j + 1
                 continue
-            if act in ('Snapshot', 'EndLoad'):
+            if act in ('Snapshot', 'EndLoad', 'ArriveDuringReplay'):
                 i += 1
                 continue
             if act == 'Deliver':
@@ -231,9 +233,35 @@ class FaultSession:
             i += 1
         return self.trace
 
-    def _load(self, pre, post):
-        """reload_all with scripted traffic while GetMdib is in flight."""
+    def _load(self, pre, post, late=()):
+        """reload_all with scripted traffic while GetMdib is in flight and while the buffered reports are replayed."""
+        import threading
+        from sdc11073 import observableproperties as op
         self.load_script = {'pre': pre, 'post': post}
+        late = [r for r in late if r['i'] - 1 < len(self.groups) + sum(1 for x in pre + post if x['act'].startswith('Commit'))]
+        late_state = {'thread': None, 'done': False}
+
+        def late_body():
+            # the receiver thread: delivers while the loader replays its buffer (it has to wait for the loader)
+            for rec in late:
+                gi = rec['i'] - 1
+                if gi < len(self.groups):
+                    try:
+                        self._deliver(gi, in_load=True)
+                    except Exception:  # noqa: BLE001
+                        pass
+            late_state['done'] = True
+
+        def trigger(_value):
+            if not _value or 'snap' not in script:
+                return      # cleared observables at the start of the load, not the replay of a buffered report
+            if late and late_state['thread'] is None and self.cm._state.name == 'initializing':  # noqa: SLF001
+                th = threading.Thread(target=late_body, name='late-receiver', daemon=True)
+                late_state['thread'] = th
+                th.start()
+                th.join(timeout=0.25)     # original code: the receiver blocks on the buffer lock until the load is over
+        watch = {name: trigger for name in ('metrics_by_handle', 'description_modifications', 'component_by_handle')}
+        op.bind(self.cm, **watch)
         self._post_script = []
         self.loaded_groups = []
         net = self.net
@@ -263,6 +291,13 @@ class FaultSession:
         except Exception as ex:  # noqa: BLE001
             res = 'exc:' + type(ex).__name__
         finally:
+            op.unbind(self.cm, **watch)
+            if late and late_state['thread'] is None:
+                late_body()                   # nothing was replayed: the late reports simply arrive after the load
+            elif late_state['thread'] is not None:
+                late_state['thread'].join(timeout=10)
+                if not late_state['done']:
+                    raise MachineryError('late receiver thread is stuck')
             net.deliver = orig_deliver
             self._deliver = orig_inner_deliver
             self.load_script = None
@@ -285,8 +320,12 @@ class FaultSession:
         self.clean = clean_load
         self.next_expected = (relevant[-1] + 1) if relevant else (groups_after_snap[0] if groups_after_snap
                                                                  else len(self.groups))
+        arrived = [self._group_triple(gi) for gi in after]
+        same = [t[0] for t in arrived if t[1] == snap['seq'] and t[2] == snap['inst']]
         return self._rec({'act': 'Load'}, res, snap=snap, expect=expect, clean_load=clean_load,
-                         n_pre=len(script['pre']), n_post=len(script['post']))
+                         max_arrived_mver=max(same) if same else -1,
+                         n_pre=len(script['pre']), n_post=len(script['post']), n_late=len(late),
+                         late_in_replay=late_state['thread'] is not None)
 
     def close(self):
         self.net.on_post = None
@@ -323,6 +362,8 @@ def check(run, replay_path=None):
     run.count('stale_deliveries', sum(1 for t in traces for r in t if r['act'] == 'Deliver'
                                       and r['same_epoch'] and r['rmver'] < t[t.index(r) - 1]['cpost']['mver']))
     run.count('loads', sum(1 for t in traces for r in t if r['act'] == 'Load'))
+    run.count('loads_with_arrival_during_replay', sum(1 for t in traces for r in t if r['act'] == 'Load'
+                                                      and r.get('late_in_replay')))
     run.count('loads_with_traffic', sum(1 for t in traces for r in t if r['act'] == 'Load'
                                         and (r['n_pre'] or r['n_post'])))
     run.count('epoch_changes', sum(1 for t in traces for r in t if r['act'] == 'Restart'))
